@@ -81,6 +81,15 @@ impl Ctx {
     }
 }
 
+static FIRST_PANIC: std::sync::Mutex<Option<(String, String)>> = std::sync::Mutex::new(None);
+/// remember the first panic that was not expected by a suite (location, message)
+pub fn note_panic(info: &std::panic::PanicHookInfo<'_>) {
+    let loc = info.location().map(|l| format!("{}:{}:{}", l.file(), l.line(), l.column())).unwrap_or_default();
+    let msg = if let Some(s) = info.payload().downcast_ref::<&str>() { s.to_string() } else if let Some(s) = info.payload().downcast_ref::<String>() { s.clone() } else { String::new() };
+    if let Ok(mut g) = FIRST_PANIC.lock() { if g.is_none() { *g = Some((loc, msg)); } }
+}
+pub fn first_panic() -> Option<(String, String)> { FIRST_PANIC.lock().ok().and_then(|g| g.clone()) }
+
 pub fn json_str(s: &str) -> String {
     let mut o = String::from("\"");
     for c in s.chars() {
